@@ -56,6 +56,9 @@ func c03Alphabet() []sym {
 		{"OPEN missing", func(P string) wire.Req { return wire.P(wire.OpOpen, "/missing.bin") }},
 		{"OPEN CLOSEFILE", func(P string) wire.Req { return wire.P(wire.OpOpen, "/CLOSEFILE") }},
 		{"OPEN ***DVD***/dir", func(P string) wire.Req { return wire.P(wire.OpOpen, "/***DVD***/dir") }},
+		{"OPEN private old", func(P string) wire.Req { return wire.P(wire.OpOpen, P+"/old.bin") }},
+		{"OPEN private new", func(P string) wire.Req { return wire.P(wire.OpOpen, P+"/new.bin") }},
+		{"OPENDIR private", func(P string) wire.Req { return wire.P(wire.OpOpenDir, P) }},
 		{"READ 5@0", func(P string) wire.Req { return wire.Read(5, 0) }},
 		{"READ 10@size-2", func(P string) wire.Req { return wire.Read(10, fileSize-2) }},
 		{"READ 4@size+3", func(P string) wire.Req { return wire.Read(4, fileSize+3) }},
@@ -110,7 +113,7 @@ func C03(e *Env) {
 		defer p.Stop()
 		procs[aw] = p
 		addr := p.HostPort()
-		worlds[aw] = &model.World{Root: root, AllowWrite: aw, Views: model.PlainViews, Probe: func() error { return host.Probe(addr) }}
+		worlds[aw] = &model.World{Root: root, AllowWrite: aw, Views: FullViews, Probe: func() error { return host.Probe(addr) }}
 	}
 	alpha := c03Alphabet()
 	maxLen := e.Pick(2, 3)
@@ -135,7 +138,7 @@ func C03(e *Env) {
 	nExh := len(cases)
 	// random part
 	rng := e.Rng(3)
-	for i := 0; i < e.Pick(300, 20000); i++ {
+	for i := 0; i < e.Pick(3000, 40000); i++ {
 		l := 3 + rng.Intn(58)
 		s := make([]int, l)
 		for j := range s {
@@ -220,11 +223,25 @@ func C03(e *Env) {
 			}
 			// mask the same fields in the received stream
 			gm := maskStream(reqs[:n], res.Resp[:n], got)
-			if !bytes.Equal(gm, want) {
+			// When the server itself ended the connection while request bytes were still queued, the
+			// kernel resets it and may discard response bytes already in flight: then the received
+			// stream only has to be a prefix of the reference. Otherwise (clean EOF) full equality.
+			same := bytes.Equal(gm, want)
+			if !same && res.ClosedAt >= 0 && bytes.HasPrefix(want, gm) {
+				same = true
+			}
+			if !same {
 				witness["delivery"] = []string{"pipelined single send + half-close", "1-byte sends + half-close"}[mode]
 				witness["lockstep_stream_len"] = len(want)
 				witness["got_stream_len"] = len(got)
 				witness["first_diff"] = firstDiffIdx(gm, want)
+				lens := []int{}
+				for j := 0; j < n; j++ {
+					lens = append(lens, len(res.Resp[j]))
+				}
+				witness["lockstep_response_lengths"] = lens
+				witness["lockstep_closed_at"] = res.ClosedAt
+				witness["lockstep_trace"] = res.Oracle.Trace
 				run.Violate("delivery-differs", []string{"pipelined", "bytewise"}[mode],
 					fmt.Sprintf("same session delivered %s produced a different response stream (len %d vs %d, first difference at %d)",
 						witness["delivery"], len(got), len(want), firstDiffIdx(gm, want)), witness)
@@ -305,7 +322,16 @@ func deliver(addr string, stream []byte, mode int, e *Env) ([]byte, string) {
 // (a WRITE cut inside its payload may additionally be answered by one 4-byte result).
 func c03Truncation(e *Env, alpha []sym, root string, procs map[bool]*host.Proc, worlds map[bool]*model.World) int {
 	run := e.Run
-	prefixes := [][]int{{}, {0}, {13}, {22}, {0, 13, 22}}
+	idx := func(name string) int {
+		for i, a := range alpha {
+			if a.name == name {
+				return i
+			}
+		}
+		panic("no symbol " + name)
+	}
+	oF, oD, cN := idx("OPEN file"), idx("OPENDIR dir"), idx("CREATE new")
+	prefixes := [][]int{{}, {oF}, {oD}, {cN}, {oF, oD, cN}}
 	type tc struct {
 		pre []int
 		s   int
